@@ -59,7 +59,7 @@ func (wk *worker) abstractVal(st stmt, tag, payload, lay string) string {
 	switch st.Op {
 	case "tag.ls", "foreach":
 		return strings.Trim(payload, "[]")
-	case "repo.ls":
+	case "repo.ls", "repo.ls+limit":
 		var out []string
 		for _, r := range strings.Split(strings.Trim(payload, "[]"), ",") {
 			for _, loc := range []string{"a1", "a2", "b1"} {
@@ -69,7 +69,7 @@ func (wk *worker) abstractVal(st stmt, tag, payload, lay string) string {
 			}
 		}
 		return strings.Join(out, ",")
-	case "manifest.head", "image.manifestHead":
+	case "manifest.head", "image.manifestHead", "m:head":
 		return "head"
 	case "manifest.get", "manifest.getList", "image.manifest", "image.manifestList", "m:get", "m:export":
 		return manifestID(payload)
